@@ -28,25 +28,36 @@ from cf_common import *  # noqa
 
 PID = "C11"
 
-# directive parameter sets: (name, kwargs, uses splits, uses trash)
+# directive parameter sets: (name, kwargs, programs, number of seeds, small)
+#   programs: which of ("shapes", "lib") get it; small: only a sample of the shapes (big emitted code)
 def param_sets(tier):
-    ps = [
-        ("lower-only", dict(passes=0)),
-        ("default", dict(passes=1)),
-        ("junk-xor", dict(junk=6, passes=1, hardening="xor")),
-        ("junk-deleg", dict(junk=3, passes=1, hardening="delegate_table")),
-        ("two-pass-both", dict(junk=1, passes=2, hardening="xor,delegate_table")),
-        ("junk-max", dict(junk="max", passes=1)),
-        ("trash", dict(junk=2, passes=1, trash=3, hardening="xor")),
-    ]
-    if tier == "thorough":
-        ps += [
-            ("three-pass", dict(passes=3, hardening="delegate_table")),
-            ("trash-many", dict(passes=1, trash=24, junk=8)),
-            ("junk-only", dict(junk=10, passes=0)),
+    if tier == "quick":
+        return [
+            ("lower-only", dict(passes=0), ("shapes",), 1, False),
+            ("default", dict(passes=1), ("shapes", "lib"), 2, False),
+            ("junk-xor", dict(junk=6, passes=1, hardening="xor"), ("shapes", "lib"), 1, False),
+            ("junk-deleg", dict(junk=3, passes=1, hardening="delegate_table"), ("shapes",), 1, False),
+            ("two-pass-both", dict(junk=1, passes=2, hardening="xor,delegate_table"), ("shapes", "lib"), 1, True),
+            ("junk-max", dict(junk="max", passes=1), ("shapes",), 1, True),
+            ("trash", dict(junk=2, passes=1, trash=3, hardening="xor"), ("shapes", "lib"), 1, False),
         ]
-    return ps
+    return [
+        ("lower-only", dict(passes=0), ("shapes", "lib"), 2, False),
+        ("default", dict(passes=1), ("shapes", "lib"), 6, False),
+        ("junk-xor", dict(junk=6, passes=1, hardening="xor"), ("shapes", "lib"), 4, False),
+        ("junk-deleg", dict(junk=3, passes=1, hardening="delegate_table"), ("shapes", "lib"), 4, False),
+        ("two-pass-both", dict(junk=1, passes=2, hardening="xor,delegate_table"), ("shapes", "lib"), 3, False),
+        ("junk-max", dict(junk="max", passes=1), ("shapes", "lib"), 1, True),
+        ("trash", dict(junk=2, passes=1, trash=3, hardening="xor"), ("shapes", "lib"), 4, False),
+        ("three-pass", dict(passes=3, hardening="delegate_table"), ("shapes", "lib"), 1, True),
+        ("max-pass", dict(passes="max"), ("shapes",), 1, True),
+        ("trash-many", dict(passes=1, trash=24, junk=8), ("shapes", "lib"), 1, True),
+        ("trash-max", dict(passes=1, trash="max"), ("shapes",), 1, True),
+        ("junk-only", dict(junk=10, passes=0), ("shapes", "lib"), 2, False),
+    ]
 
+
+SMALL_SHAPES = ["while-y-x-x", "while-t-y-x", "dowhile-t-y-x", "dowhile-t-y-t", "dowhile-y-x-t", "ifmerge-u-v-m", "loopif-x-y-x", "loopbreak-x-y-x"]
 
 SPLIT_SETS = [
     ("split1", dict(splits=1, junk=2, passes=1)),
@@ -62,6 +73,17 @@ def config_class(kw):
 
 class Ctx:
     pass
+
+
+MAX_REPLAY_ARTIFACTS = 6
+
+
+def report(ctx, chk, witness, files, what):
+    """chk.violation, but only the first few (non-known) violations carry the full source trees."""
+    n = len(chk.violations)
+    if n >= MAX_REPLAY_ARTIFACTS:
+        files = {k: v for k, v in files.items() if not isinstance(v, Path)}
+    return chk.violation(witness, files, what)
 
 
 def ref_build(ctx, name, files):
@@ -103,7 +125,7 @@ def judge_shapes(ctx, chk, leads, ref_out, obf_res, kw, how, files, ids=None):
                    "as_predicted": pred_ok, "config_class": cc, "how": how,
                    "symptom": "hang-or-crash" if missing else "wrong-output"}
         k0 = diff[0]
-        chk.violation(witness, dict(files, **{"expected_vs_observed.json": json.dumps(
+        report(ctx, chk, witness, dict(files, **{"expected_vs_observed.json": json.dumps(
             {"call": k0, "regular": ref_out[k0], "obfuscated": obf_out.get(k0), "params": kw,
              "tlc_low_prediction": l["low"], "tlc_ssa_prediction": l["ssa"]}, indent=1, default=str)}),
             what=f"{how}: shape {sid} with {kw}: obfuscated function returns/emits {obf_out.get(k0)} instead of {ref_out[k0]}")
@@ -126,11 +148,13 @@ def judge_lib(ctx, chk, ref_res, obf_res, kw_for, how, files, tags):
             as_pred = True
         if tag == "recover-named-results" and obf.get(tag) == [F2_EXPECTED_WRONG]:
             as_pred = True
+        if tag == "defer-modifies-named-result" and obf.get(tag) == [F2B_EXPECTED_WRONG]:
+            as_pred = True
         if tag == "select-recv-commaok" and obf.get(tag) == [F15_EXPECTED_WRONG]:
             as_pred = True
         witness = {"kind": "lib", "shape": tag, "as_predicted": as_pred, "config_class": config_class(kw), "how": how,
                    "symptom": "hang-or-crash" if tag not in obf else "wrong-output"}
-        chk.violation(witness, dict(files, **{"expected_vs_observed.json": json.dumps(
+        report(ctx, chk, witness, dict(files, **{"expected_vs_observed.json": json.dumps(
             {"template": tag, "regular": ref[tag], "obfuscated": obf.get(tag), "params": kw}, indent=1)}),
             what=f"{how}: template {tag} with {kw}: prints {obf.get(tag)} instead of {ref[tag]}")
     # the program ends with an uncaught panic: exit status and panic message must agree
@@ -197,7 +221,8 @@ def check_cfg_dumps(ctx, chk):
                 if b.get("marker"):
                     # trash blocks are entered only from their guard or from themselves
                     for q in blocks:
-                        if b["pos"] in q["succs"] and q["pos"] != b["pos"] and not q["comment"].startswith("ctrflow."):
+                        # (dispatcher comparison blocks carry no comment, original go/ssa blocks always do)
+                        if b["pos"] in q["succs"] and q["pos"] != b["pos"] and q["comment"] and not q["comment"].startswith("ctrflow."):
                             problems.append((fn, "TrashOnlyBehindGuard", q["pos"]))
     ctx.real_cfgs_checked = n
     if problems:
@@ -334,31 +359,32 @@ def main(tier, seed):
     _, ref_lib = ref_build(ctx, "lib", add_final_panic(lib_files0))
 
     # ------------------------------------------------------------------ 3. in-process replay
-    seeds = [seed * 7919 + k for k in range(2 if tier == "quick" else 6)]
     skeleton_checked = False
-    for (pname, kw) in nosplit:
-        for s in (seeds if pname not in ("junk-max", "three-pass", "trash-many") else seeds[:1]):
+    for (pname, kw, progs, nseeds, small) in nosplit:
+        for s in [seed * 7919 + k for k in range(nseeds)]:
             wi = bool(kw.get("trash"))
-            # shapes
-            files = shapes_program(leads, lambda i: directive(**kw), with_import=wi)
-            r, out, st = inprocess(ctx, chk, f"shapes-{pname}-{s}", files, s)
-            if st == "ok":
-                chk.case(["inprocess", "shapes", pname], sample={"program": "shapes", "params": kw, "seed": s, "path": "cfdrv"})
-                judge_shapes(ctx, chk, leads, ref_out, r, kw, "inprocess", {"src": ctx.root / f"src-shapes-{pname}-{s}", "obf": out})
-                if not skeleton_checked:
-                    skeleton_checked = True
-                    dump = read_cfg_dump(ctx.cfg_dumps[-1])
-                    sk = sum(1 for sid, l in leads.items()
-                             if skeleton_of(dump.get(("ssa", MODULE + "." + go_ident(sid)), [])) != l["skeleton"])
-                    chk.extra["cfg_skeleton_mismatches"] = sk
-                    if sk:
-                        print(f"MODEL-MISMATCH: property={PID} {sk} real go/ssa CFG skeletons differ from the spec's shapes", flush=True)
-            # library
-            files = add_final_panic(lib_program(lambda t: directive(**kw), with_import=wi))
-            r, out, st = inprocess(ctx, chk, f"lib-{pname}-{s}", files, s)
-            if st == "ok":
-                chk.case(["inprocess", "lib", pname], sample={"program": "lib", "params": kw, "seed": s, "path": "cfdrv"})
-                judge_lib(ctx, chk, ref_lib, r, lambda t: kw, "inprocess", {"src": ctx.root / f"src-lib-{pname}-{s}", "obf": out}, lib_all)
+            if "shapes" in progs:
+                ids = [i for i in SMALL_SHAPES if i in leads] if small else sorted(leads)
+                sub = {i: leads[i] for i in ids}
+                files = shapes_program(sub, lambda i: directive(**kw), with_import=wi)
+                r, out, st = inprocess(ctx, chk, f"shapes-{pname}-{s}", files, s)
+                if st == "ok":
+                    chk.case(["inprocess", "shapes", pname], sample={"program": f"{len(ids)} shapes", "params": kw, "seed": s, "path": "cfdrv"})
+                    judge_shapes(ctx, chk, leads, ref_out, r, kw, "inprocess", {"src": ctx.root / f"src-shapes-{pname}-{s}", "obf": out}, ids=ids)
+                    if not skeleton_checked and not small:
+                        skeleton_checked = True
+                        dump = read_cfg_dump(ctx.cfg_dumps[-1])
+                        sk = sum(1 for sid, l in leads.items()
+                                 if skeleton_of(dump.get(("ssa", MODULE + "." + go_ident(sid)), [])) != l["skeleton"])
+                        chk.extra["cfg_skeleton_mismatches"] = sk
+                        if sk:
+                            print(f"MODEL-MISMATCH: property={PID} {sk} real go/ssa CFG skeletons differ from the spec's shapes", flush=True)
+            if "lib" in progs:
+                files = add_final_panic(lib_program(lambda t: directive(**kw), with_import=wi))
+                r, out, st = inprocess(ctx, chk, f"lib-{pname}-{s}", files, s)
+                if st == "ok":
+                    chk.case(["inprocess", "lib", pname], sample={"program": "lib", "params": kw, "seed": s, "path": "cfdrv"})
+                    judge_lib(ctx, chk, ref_lib, r, lambda t: kw, "inprocess", {"src": ctx.root / f"src-lib-{pname}-{s}", "obf": out}, lib_all)
 
     # block splitting: a split inside a phi group panics (F10, a rejected build), so splits go to a few
     # functions per program and rejected seeds are retried
@@ -373,7 +399,7 @@ def main(tier, seed):
         if st == "ok":
             chk.case(["inprocess", "shapes-split", pname, tuple(ids)], sample={"program": ids, "params": kw, "path": "cfdrv"})
             judge_shapes(ctx, chk, leads, ref_out, r, kw, "inprocess", {"src": ctx.root / f"src-split-{k}", "obf": out}, ids=ids)
-        tags = rng.sample([t for t in lib_all if t not in ("range-string-multibyte", "recover-named-results", "select-recv-commaok")], 4)
+        tags = rng.sample([t for t in lib_all if t not in ("range-string-multibyte", "recover-named-results", "select-recv-commaok", "defer-modifies-named-result")], 4)
         files = lib_program(lambda t: directive(**kw), tags=tags, with_import=bool(kw.get("trash")))
         _, ref_sub = ref_build(ctx, f"libsub-{k}", files)
         r, out, st = inprocess(ctx, chk, f"libsplit-{k}", files, seed * 37 + k, tries=14)
@@ -393,6 +419,8 @@ def main(tier, seed):
             chk.case(["inprocess", "f14-lead", k], sample={"program": ids, "params": kw, "path": "cfdrv"})
             if judge_shapes(ctx, chk, leads, ref_out, r, kw, "inprocess", {"src": ctx.root / f"src-f14-{k}", "obf": out}, ids=ids):
                 f14_seen = True
+                if tier == "quick":
+                    break
     chk.extra["f14_lead_reproduced"] = f14_seen
     if f14_lead and not f14_seen:
         print(f"MODEL-MISMATCH: property={PID} TLC's trash+split counterexample was not reproduced on the real code", flush=True)
@@ -404,21 +432,22 @@ def main(tier, seed):
     # ------------------------------------------------------------------ 4. whole-tool runs
     gsb = Sandbox(ctx.root / "sb-garble", template=True)
     env = {"GARBLE_EXPERIMENTAL_CONTROLFLOW": "1"}
-    tool_sets = [("default", dict(passes=1)), ("junk-xor", dict(junk=6, passes=1, hardening="xor")),
-                 ("two-pass-both", dict(junk=1, passes=2, hardening="xor,delegate_table"))]
+    tool_sets = [("default", dict(passes=1), ("shapes", "lib")),
+                 ("junk-both", dict(junk=4, passes=1, hardening="xor,delegate_table"), ("lib",))]
     if tier == "thorough":
-        tool_sets += [("junk-deleg", dict(junk=3, passes=1, hardening="delegate_table")), ("trash", dict(junk=2, passes=1, trash=3)),
-                      ("junk-max", dict(junk="max", passes=1)), ("split1", dict(splits=1, junk=2, passes=1)),
-                      ("lower-only", dict(passes=0)), ("max-passes-small", dict(passes="max"))]
+        tool_sets = [("default", dict(passes=1), ("shapes", "lib")), ("junk-xor", dict(junk=6, passes=1, hardening="xor"), ("shapes", "lib")),
+                     ("two-pass-both", dict(junk=1, passes=2, hardening="xor,delegate_table"), ("shapes", "lib")),
+                     ("junk-deleg", dict(junk=3, passes=1, hardening="delegate_table"), ("shapes", "lib")),
+                     ("trash", dict(junk=2, passes=1, trash=3), ("shapes", "lib")),
+                     ("junk-max", dict(junk="max", passes=1), ("lib",)), ("split1", dict(splits=1, junk=2, passes=1), ("lib",)),
+                     ("lower-only", dict(passes=0), ("shapes", "lib")), ("max-passes-small", dict(passes="max"), ("shapes",))]
     flagsets = [[]] if tier == "quick" else [[], ["-seed=" + "bXlzZWVkbXlzZWVk"], ["-literals"]]
     ok_builds = 0
     for flags in flagsets:
-        for (pname, kw) in tool_sets:
-            for prog in ("shapes", "lib"):
+        for (pname, kw, progs) in tool_sets:
+            for prog in progs:
                 wi = bool(kw.get("trash"))
                 if pname == "max-passes-small":
-                    if prog == "lib":
-                        continue
                     sub = {i: leads[i] for i in ("ifmerge-u-v-m", "dowhile-t-y-t")}
                     files = shapes_program(sub, lambda i: directive(**kw))
                 elif prog == "shapes":
